@@ -123,16 +123,6 @@ def AdoptRegion (st : St) : Op → Prop
         (idxOf (some i) st.rules.length).isSome = true
   | _ => False
 
-/-- C09-clean-refused-halfway: an insert of a @namespace rule (also through `namespaces[p] = u` with a new prefix)
-raises NoModificationAllowedErr — only the `deleteRule` inside `_cleanNamespaces` can do that — after the new rule
-was put into the list and before it was given its parent -/
-def CleanRegion (st : St) : Op → Prop
-  | .insert s i v => (step st (.insert s i v)).2 = .err .noMod
-  | .add s v => (step st (.add s v)).2 = .err .noMod
-  | .insertOrdered s i v => (step st (.insertOrdered s i v)).2 = .err .noMod
-  | .nsSet p u => findNsIdx p st.rules = none ∧ (step st (.nsSet p u)).2 = .err .noMod
-  | _ => False
-
 /-- C09-media-accepts-variables, C09-page-accepts-nonmargin: `container.insertRule` lets a kind through that the
 container cannot hold -/
 def nestedRegionB (st : St) : Op → Bool
@@ -156,7 +146,7 @@ def ReplaceRegion (st : St) (op : Op) : Prop := replaceRegionB st op = true
 
 /-- all regions of listed known findings about the state (not about the returned index) -/
 def Region (st : St) (op : Op) : Prop :=
-  OrderRegion st op ∨ AdoptRegion st op ∨ CleanRegion st op ∨ NestedRegion st op ∨ ReplaceRegion st op
+  OrderRegion st op ∨ AdoptRegion st op ∨ NestedRegion st op ∨ ReplaceRegion st op
 
 /-- rule objects handed in by the caller are well nested (texts are parsed, which guarantees it) -/
 def OpOK : Op → Prop
@@ -171,11 +161,12 @@ structure Valid (st : St) : Prop where
   kids : ∀ r ∈ st.rules, r.kidsOK = true
   links : ∀ r ∈ st.rules, r.linksOK none true = true
   gone : ∀ g ∈ st.gone, g.linksOK none false = true
+  /-- bookkeeping of the model, not part of the property: the rule objects of the sheet's list were created before
+  `next` (object identity is rendered as an id; Python's `r is rule` / `rule in self._cssRules` compare ids) -/
+  ids : ∀ r ∈ st.rules, r.id < st.next
 
 instance (st : St) (op : Op) : Decidable (AdoptRegion st op) := by
   cases op <;> unfold AdoptRegion <;> exact inferInstance
-instance (st : St) (op : Op) : Decidable (CleanRegion st op) := by
-  cases op <;> unfold CleanRegion <;> exact inferInstance
 instance (st : St) (op : Op) : Decidable (NestedRegion st op) := by unfold NestedRegion; exact inferInstance
 instance (st : St) (op : Op) : Decidable (ReplaceRegion st op) := by unfold ReplaceRegion; exact inferInstance
 instance (st : St) (op : Op) : Decidable (Region st op) := by unfold Region; exact inferInstance
@@ -196,6 +187,6 @@ instance (st : St) (ops : List Op) : Decidable (Clean st ops) := cleanDec st ops
 /-- Bool rendering of `Valid` (for `decide` at witnesses and for the driver) -/
 def validB (st : St) : Bool :=
   decide (TopOK st.rules) && st.rules.all (fun r => r.kidsOK && r.linksOK none true) &&
-    st.gone.all (fun g => g.linksOK none false)
+    st.gone.all (fun g => g.linksOK none false) && st.rules.all (fun r => r.id < st.next)
 
 end CssVerif.SheetEdit
